@@ -18,6 +18,7 @@ type Layout struct {
 	CommentAtGap  int    // 1-based token gap at which Comment is inserted (0: none)
 	Comment       string // "--x\n"-style text; the printer counts its newlines
 	LeadingLines  int    // blank lines in front of the chunk
+	LeadComment   int    // > 0: the chunk starts with a line comment of "--" + that many filler bytes (moves every later byte by a chosen amount)
 	ParenOperands bool   // redundant parentheses around single-valued operands of binary operators
 }
 
@@ -38,6 +39,10 @@ func Print(chunk *Block, lay Layout) string {
 	p := &printer{lay: lay, line: 1, atLineStart: true}
 	if p.lay.EOL == "" {
 		p.lay.EOL = "\n"
+	}
+	if lay.LeadComment > 0 {
+		p.b.WriteString("--" + strings.Repeat("x", lay.LeadComment))
+		p.newline()
 	}
 	for i := 0; i < lay.LeadingLines; i++ {
 		p.newline()
@@ -101,7 +106,7 @@ func (p *printer) tokx(t string, noBreakBefore bool) int {
 	}
 	p.b.WriteString(t)
 	// tokens may contain newlines (long strings): count them
-	p.line += strings.Count(t, "\n")
+	p.line += countLineEnds(t)
 	p.atLineStart = false
 	p.gap++
 	p.lastTok = t
@@ -463,7 +468,7 @@ func (p *printer) exprP(e Expr, minPrec int, start *int) {
 		}
 		first := p.line
 		x.Last = p.tok(lit)
-		x.First = x.Last - strings.Count(lit, "\n")
+		x.First = x.Last - countLineEnds(lit)
 		if first > x.First {
 			x.First = first
 		}
@@ -732,4 +737,18 @@ func exprUsesVararg(e Expr) bool {
 		return u
 	}
 	return false
+}
+
+// countLineEnds counts line ends the way the Lua lexer does: "\n", "\r", "\r\n" and "\n\r" are one each.
+func countLineEnds(t string) int {
+	n := 0
+	for i := 0; i < len(t); i++ {
+		if t[i] == '\n' || t[i] == '\r' {
+			n++
+			if i+1 < len(t) && (t[i+1] == '\n' || t[i+1] == '\r') && t[i+1] != t[i] {
+				i++
+			}
+		}
+	}
+	return n
 }
